@@ -1,6 +1,10 @@
 package main
 
 import (
+	"encoding/json"
+	"go/types"
+	"os"
+	"path/filepath"
 	"sort"
 	"strings"
 
@@ -342,4 +346,79 @@ func baselineLoopOrdinal(fn *ssa.Function, cur int) int {
 		return v
 	}
 	return cur
+}
+
+// Struct fields that a contract mentions by name: the baseline records, for every named struct type of the repository,
+// its fields in order (name and type). A field name that no longer exists is looked up there: if a recorded struct has
+// the same number of fields with the same types in the same order as the struct at hand and contains the name, the
+// field at that position is meant (a renamed field).
+type fieldRec struct {
+	Name string `json:"name"`
+	Type string `json:"type"`
+}
+
+var structBaseline map[string][]fieldRec
+
+func loadStructBaseline() map[string][]fieldRec {
+	if structBaseline != nil {
+		return structBaseline
+	}
+	structBaseline = map[string][]fieldRec{}
+	if b, err := os.ReadFile(filepath.Join(verifRoot, "structs.baseline.json")); err == nil {
+		json.Unmarshal(b, &structBaseline)
+	}
+	return structBaseline
+}
+
+func updateStructBaseline(ld *Loaded) {
+	m := loadStructBaseline()
+	for _, p := range ld.Prog.AllPackages() {
+		if !strings.HasPrefix(p.Pkg.Path(), modulePrefix) {
+			continue
+		}
+		for _, mem := range p.Members {
+			t, ok := mem.(*ssa.Type)
+			if !ok {
+				continue
+			}
+			st, ok := t.Type().Underlying().(*types.Struct)
+			if !ok {
+				continue
+			}
+			var fs []fieldRec
+			for i := 0; i < st.NumFields(); i++ {
+				fs = append(fs, fieldRec{st.Field(i).Name(), types.TypeString(st.Field(i).Type(), nil)})
+			}
+			m[strings.ReplaceAll(p.Pkg.Path(), modulePrefix+"/", "")+"."+t.Name()] = fs
+		}
+	}
+	b, _ := json.MarshalIndent(m, "", " ")
+	os.WriteFile(filepath.Join(verifRoot, "structs.baseline.json"), b, 0o644)
+}
+
+// baselineFieldIndex: position of the field that was called name when the contracts were written, or -1.
+func baselineFieldIndex(st *types.Struct, name string) int {
+	found := -1
+	for _, fs := range loadStructBaseline() {
+		if len(fs) != st.NumFields() {
+			continue
+		}
+		idx, same := -1, true
+		for i, f := range fs {
+			if f.Type != types.TypeString(st.Field(i).Type(), nil) {
+				same = false
+				break
+			}
+			if f.Name == name {
+				idx = i
+			}
+		}
+		if same && idx >= 0 {
+			if found >= 0 && found != idx {
+				return -1 // ambiguous
+			}
+			found = idx
+		}
+	}
+	return found
 }
